@@ -40,7 +40,29 @@ TraceOp == /\ l <= Len(Trace) /\ Trace[l].e = "op"
               /\ Len(order') = ev.len
            /\ l' = l + 1
 
-TraceNext == TraceReset \/ TraceOp
+(* "opx": an operation of a long concurrent run, placed at its under-lock stamp; the projected state is
+   not logged per step (it could not be read atomically), only result and callbacks are bound *)
+TraceOpX == /\ l <= Len(Trace) /\ Trace[l].e = "opx"
+            /\ LET ev == Trace[l] IN
+               /\ CASE ev.op = "Store" -> Store(ev.k, ev.v)
+                    [] ev.op = "Load" -> Load(ev.k)
+                    [] ev.op = "Delete" -> Delete(ev.k)
+                    [] ev.op = "Len" -> LenOp
+                    [] ev.op = "Dump" -> DumpOp
+               /\ ret'.ok = ev.ok
+               /\ ret'.res = ev.res
+               /\ ret'.n = ev.n
+               /\ cb' = ev.cb
+            /\ l' = l + 1
+
+(* "q": quiescent observation of the projected state *)
+TraceQ == /\ l <= Len(Trace) /\ Trace[l].e = "q"
+          /\ Trace[l].len = Len(order)
+          /\ Trace[l].dump = DumpOf(order, val)
+          /\ UNCHANGED vars
+          /\ l' = l + 1
+
+TraceNext == TraceReset \/ TraceOp \/ TraceOpX \/ TraceQ
 TraceSpec == TraceInit /\ [][TraceNext]_tvars
 
 HW == TLCSet(1, IF l > TLCGet(1) THEN l ELSE TLCGet(1))
